@@ -7,6 +7,7 @@ import (
 	"os/exec"
 	"path/filepath"
 	"sort"
+	"strings"
 	"syscall"
 	"time"
 
@@ -30,6 +31,16 @@ func ChildMain() {
 	var sc Scenario
 	if err := json.Unmarshal(b, &sc); err != nil {
 		os.Exit(3)
+	}
+	if f := getenvInt("VERIF_CHILD_FAULT"); f > 0 {
+		// write-fault run (C08): in-memory store, the f-th storage update fails; the event log goes to a file
+		// synchronously because the engine's reaction to a failed write is to exit the process
+		evlog, err := os.OpenFile(os.Getenv("VERIF_CHILD_EVLOG"), os.O_CREATE|os.O_WRONLY|os.O_APPEND, 0o644)
+		if err != nil {
+			os.Exit(3)
+		}
+		Run(&sc, RunOpts{FailWrite: f, EvLog: evlog, HardLimit: 20 * time.Second, StallWindow: 3 * time.Second})
+		os.Exit(0)
 	}
 	k := getenvInt("VERIF_CHILD_KILL")
 	reg := NewRegistry()
@@ -151,6 +162,85 @@ func RealKill(sc *Scenario, k int, ref []*workflow.Plan, which string, res *vpro
 		vprop.Count("real_kills", 1)
 	} else {
 		vprop.Count("real_kill_child_finished_first", 1)
+	}
+	return true
+}
+
+
+// WriteFault runs the scenario in a child process in which the k-th storage update fails, and judges the child's event
+// log with the persist-before-act rules of C08: "Every state change is durable before the engine acts on it" — a state
+// change whose write failed is not durable, so the engine must not act on it (the engine's own answer is to exit).
+// Returns false when the run could not be carried out (counted, not judged).
+func WriteFault(sc *Scenario, k int, res *vprop.Result) bool {
+	dir, err := os.MkdirTemp("", "verif-fault-")
+	if err != nil {
+		return false
+	}
+	defer os.RemoveAll(dir)
+	b, _ := json.Marshal(sc)
+	caseFile := filepath.Join(dir, "case.json")
+	if os.WriteFile(caseFile, b, 0o644) != nil {
+		return false
+	}
+	evlog := filepath.Join(dir, "events.jsonl")
+	cmd := exec.Command(os.Args[0], "-test.run", "^TestCrashChild$", "-test.timeout", "60s")
+	cmd.Env = append(os.Environ(), "VERIF_CHILD_CASE="+caseFile, "VERIF_CHILD_EVLOG="+evlog, fmt.Sprintf("VERIF_CHILD_FAULT=%d", k),
+		"VERIF_STATS_OUT=", "VERIF_REPLAY=", "VERIF_REPLAY_DIR=", "VERIF_JOURNAL=")
+	_ = cmd.Run() // the exit status is not judged: exiting is the engine's legitimate reaction
+	data, err := os.ReadFile(evlog)
+	if err != nil {
+		return false
+	}
+	rr := &RunResult{Sc: sc}
+	failedAt := -1
+	failedPlan := -1
+	for _, line := range strings.Split(string(data), "\n") {
+		if line == "" {
+			continue
+		}
+		var ll LogLine
+		if json.Unmarshal([]byte(line), &ll) != nil {
+			continue // a torn last line
+		}
+		e := Event{Kind: ll.K, Tag: ll.Tag, N: ll.N, Out: ll.Out, CtxDone: ll.Ctx, PlanIdx: ll.Plan}
+		if ll.K == EvEnter || ll.K == EvExit {
+			e.Ref, _ = ParseTag(ll.Tag)
+		}
+		if ll.K == EvWriteBegin || ll.K == EvWriteEnd {
+			w := &WriteRec{Tag: ll.Tag, PlanIdx: ll.Plan, Create: ll.WCreate, Attempts: make([]*workflow.Attempt, ll.WAtt)}
+			w.State.Status = ll.WStatus
+			if ll.WErr {
+				w.Err = fmt.Errorf("injected storage write failure")
+				if ll.K == EvWriteEnd && failedAt < 0 {
+					failedAt, failedPlan = len(rr.Events), ll.Plan
+				}
+			}
+			e.W = w
+		}
+		rr.Events = append(rr.Events, e)
+	}
+	if failedAt < 0 {
+		vprop.Count("write_faults_beyond_last_write", 1)
+		return false // the run had fewer than k updates
+	}
+	vprop.Count("write_faults", 1)
+	for range sc.Plans {
+		rr.Plans = append(rr.Plans, &PlanRun{WaitRetIdx: -1})
+	}
+	CheckC08(rr, res)
+	if len(res.Violations) > 0 {
+		v := &res.Violations[len(res.Violations)-1]
+		v.Rule += ":after-failed-write"
+		v.Msg = fmt.Sprintf("storage update %d (%s %v) failed: %s\n%s", k, rr.Events[failedAt].Tag, rr.Events[failedAt].W.State.Status, v.Msg, FormatEvents(rr.Events, 30))
+		return true
+	}
+	// "the terminal state of the whole plan is durable before any waiter is released": after a failed write of an
+	// object of the plan its waiter must not be released
+	for i := failedAt + 1; i < len(rr.Events); i++ {
+		if e := rr.Events[i]; e.Kind == EvWaitRet && e.PlanIdx == failedPlan && e.Err == "" {
+			res.Fail("C08/waiter-released-after-failed-write", "storage update %d (%s) failed but Wait on plan p%d returned afterwards (log %d)\n%s", k, rr.Events[failedAt].Tag, failedPlan, i, FormatEvents(rr.Events, 30))
+			return true
+		}
 	}
 	return true
 }
